@@ -41,7 +41,8 @@ EXPLANATION = (
     'membership and record an error. R6: a type reference resolves only to data types '
     '(environment typestate). Decides these necessary conditions of the "every violation is '
     'reported" direction; not the "never refuses a valid spec" direction nor the lexer\'s '
-    'indentation arithmetic.')
+    'indentation arithmetic.'
+    " R7 (imported from C02-R5): the legality checks iterate all_fields; Struct/Union.all_fields must include every ancestor's fields, otherwise a legal reference to an inherited tag or field is refused.")
 ASSUMPTIONS = [
     'reference/enforcement_sites.json holds, per function, the number of error-reporting sites '
     'confirmed by reading at the pinned commit plus the fix commits; a function may gain sites '
@@ -445,3 +446,5 @@ def run(pm, ctx):
         ctx.check('C01-R6', ok, '%s refuses anything that is not a known annotation kind' % f.short,
                   f.loc, msg='%s lost its refusal of unknown annotation objects' % f.short,
                   key='C01-R6|%s|else' % f.qualname)
+    ctx.import_rules(pm, 'C02', {'C02-R5'}, 'C01-R7',
+                     'field listings that legality checks iterate are complete (shared with C02-R5)')
